@@ -167,6 +167,11 @@ def exclusion_check(ctx, ptoks, etoks, idx, glob_mode):
         m1 = mod.compile(pat, flags=base, exclude=epat)
         m2 = mod.compile([pat, '!' + epat], flags=base | mod.NEGATE)
         m3 = mod.compile([pat, '-' + epat], flags=base | mod.NEGATE | mod.MINUSNEGATE)
+        # the forced dot-matching belongs to the exclusion alone, wherever it stands in the list
+        m4 = mod.compile(['!' + epat, pat], flags=base | mod.NEGATE)
+        m5 = mod.compile(('!' + epat, pat, pat), flags=base | mod.NEGATE)
+        m6 = mod.compile('!' + epat + '|' + pat, flags=base | mod.NEGATE | mod.SPLIT) if '|' not in pat + epat else m4
+        m7 = mod.compile('{!' + epat + ',' + pat + '}', flags=base | mod.NEGATE | mod.BRACE) if not (set('{},') & set(pat + epat)) else m4
     except Exception as e:  # noqa: BLE001
         ctx.disagree(f'compile with exclusion raised {type(e).__name__}', {'pattern': pat, 'exclude': epat, 'glob_mode': glob_mode})
         return
@@ -181,7 +186,8 @@ def exclusion_check(ctx, ptoks, etoks, idx, glob_mode):
             continue
         ctx.evals()
         ctx.count('exclusion_checks')
-        for api, m in (('exclude=', m1), ('NEGATE !', m2), ('MINUSNEGATE -', m3)):
+        for api, m in (('exclude=', m1), ('NEGATE !', m2), ('MINUSNEGATE -', m3), ('NEGATE ! (exclusion first)', m4),
+                       ('NEGATE ! (exclusion first, tuple)', m5), ('NEGATE ! (exclusion first, SPLIT)', m6), ('NEGATE ! (exclusion first, BRACE)', m7)):
             got = m.match(n)
             if got is not exp:
                 fid = None
@@ -244,6 +250,11 @@ def walker_exclusion_check(ctx, root):
 TREE = ['a', 'b', '.h', '.hd/', '.hd/x', '.hd/.y', 'd/', 'd/a', 'd/.h', 'd/.hd/', 'd/.hd/z', 'd/e/', 'd/e/.k', 'd/e/f', '.a.', '..a']
 
 
+# hidden names that are symlinks to directories (a recursive segment that follows links must still skip them), and a visible
+# link to a hidden directory
+TREE_LINKS = [('.hl', 'd'), ('d/.hl2', 'e'), ('ln', '.hd')]   # (no cycle: FOLLOW is used on this tree)
+
+
 def make_tree():
     base, root = env.mknested('c03-')
     for e in TREE:
@@ -253,6 +264,8 @@ def make_tree():
         else:
             os.makedirs(os.path.dirname(p), exist_ok=True)
             open(p, 'w').close()
+    for name, target in TREE_LINKS:
+        os.symlink(target, os.path.join(root, name))
     return root
 
 
@@ -331,6 +344,7 @@ def run(ctx):
                     if idx % 4 == 0:
                         rt = tuple(f for f in gfn if f != 'NODOTDIR') + (('SCANDOTDIR',) if idx % 8 == 0 else ())
                         real_tree_check(ctx, toks, rt, root, idx)
+                        real_tree_check(ctx, toks, rt + ('FOLLOW',), root, idx)
                 if idx % 600 == 1:
                     ctx.sample({'pattern': gen.ser(toks), 'fnmatch_flags': FN_FLAGSETS[idx % 2], 'glob_flags': list(GL_FLAGSETS[idx % len(GL_FLAGSETS)]),
                                 'hidden_names': hidden_names(toks, ctx.rng_for('hn', idx))[:8]})
@@ -352,6 +366,9 @@ def run(ctx):
                 gl_check(ctx, toks, gfn, idx, pathlib_too=(idx % 2 == 0))
                 rt = tuple(f for f in gfn if f != 'NODOTDIR') + (('SCANDOTDIR',) if idx % 5 == 0 else ())
                 real_tree_check(ctx, toks, rt, root, idx)
+                if any(t[0] in ('gstar', 'gstarlong') for t in toks):
+                    real_tree_check(ctx, toks, tuple(f for f in rt if f != 'SCANDOTDIR') + ('FOLLOW',), root, idx)
+                    real_tree_check(ctx, toks, tuple(f for f in rt if f != 'SCANDOTDIR') + ('GLOBSTARLONG', 'FOLLOW', 'MATCHBASE'), root, idx)
         # every wildcard opener behind every kind of recursive / multi-separator prefix: the segment start is a segment start
         # no matter how the parser got there (merged globstars, doubled separators, escaped separators)
         GS, GL_ = (('gstar',),), (('gstarlong',),)
